@@ -150,6 +150,14 @@ def run_case(case: Dict[str, Any], ctx) -> None:
         ctx.violation("C15:simulate_format-raises:" + exc_key(e), repr(e), source=src)
         return
     ctx.count("programs:transformed")
+    if case["seed"] % 4 == 2 and not root_case:
+        # history: a REJECTED call first (the caller passes a wrong number of arguments and catches the TypeError) - the
+        # transformed module must simulate the formats on the next, valid call all the same
+        try:
+            sim()
+            ctx.count("history:bad-call-was-not-rejected")
+        except Exception:
+            ctx.count("history:rejected-call-first")
     params = {k: v for k, v in sim.named_parameters()}
     torch._dynamo.utils.counters.clear()
     ins_u = [t.detach().clone().requires_grad_(req_in) if t.is_floating_point() else t.clone() for t in inputs]
